@@ -255,6 +255,10 @@ func (s *V2Sessionless) buildAndSendCommand(ctx context.Context, c ipmi.Command)
 			return err
 		}
 
+		if err := validateResponseOperation(c.Operation(), &s.messageLayer.Operation); err != nil {
+			return err
+		}
+
 		code := s.messageLayer.CompletionCode
 		// must increment here, otherwise we'll miss temporary codes at the
 		// higher levels
@@ -265,6 +269,16 @@ func (s *V2Sessionless) buildAndSendCommand(ctx context.Context, c ipmi.Command)
 		}
 		return nil
 	}, backoff.WithContext(s.backoff, ctx))
+}
+
+// validateResponseOperation ensures a response message corresponds to the
+// request sent, i.e. it is not a stray response to another command.
+func validateResponseOperation(req, rsp *ipmi.Operation) error {
+	if rsp.Function != req.Function+1 || rsp.Command != req.Command {
+		return fmt.Errorf("response is for %v command %#x, expected %v command %#x",
+			rsp.Function, uint8(rsp.Command), req.Function+1, uint8(req.Command))
+	}
+	return nil
 }
 
 func (s *V2Sessionless) GetSystemGUID(ctx context.Context) ([16]byte, error) {
